@@ -65,6 +65,11 @@ def run_jobs(jobs):
         prop, label, docs, pred, want_exit, args, expect = j
         rc, res, err = scrut(docs, args)
         got = None if res is None else [k for _, k in res]
+        if want_exit is None:
+            # "is never reported as succeeded": the run fails (50: results say so; 1: scrut gave up on the document, nothing is reported)
+            if (rc == 50 and got is not None and pred(got)) or (rc == 1 and (got is None or pred(got))):
+                return None
+            return {"why": f"{prop}: {label}: results {got} exit {rc}, expected {expect} and a failing exit status", "case": {"docs": docs, "args": list(args)}}
         if got is None or not pred(got) or rc != want_exit:
             return {"why": f"{prop}: {label}: results {got} exit {rc}, expected {expect} exit {want_exit}" + (f" [{err.strip()}]" if res is None else ""),
                     "case": {"docs": docs, "args": list(args)}}
@@ -156,7 +161,24 @@ def c14(deep):
     return run_jobs(jobs)
 
 
-TABLE = {"C14": c14, "C15": c15}
+def c05(deep):
+    """a command that ends without an exit code (kills its own shell with SIGKILL / SIGTERM) at every position of a 3-test document, Markdown
+    and Cram: neither it nor any later test case is reported as succeeded, and the run does not exit 0; the earlier ones are unaffected
+    when results are reported at all (scrut may instead give up on the document: exit 1)"""
+    jobs = []
+    for fmt in ("md", "cram"):
+        for sig in ("KILL", "TERM"):
+            for pos in range(3):
+                tests = [(f"kill -{sig} $$", [], "") if i == pos else (f"echo t{i}", [f"t{i}"], "") for i in range(3)]
+                doc = ("a_killed.md", md(tests)) if fmt == "md" else ("a_killed.t", cram(tests))
+
+                def pred(g, pos=pos):
+                    return len(g) <= 3 and all(k != "success" for k in g[pos:]) and all(k == "success" for k in g[:pos])
+                jobs.append(("C05", f"{fmt}, test case {pos + 1} kills its shell with SIG{sig}", [doc], pred, None, (), "no success at or after the killed test case"))
+    return run_jobs(jobs)
+
+
+TABLE = {"C05": c05, "C14": c14, "C15": c15}
 
 
 def run(prop, deep):
